@@ -9,7 +9,7 @@ RULE = ("(a)+(b) state space = 39 opcode tables x 256 opcode numbers, 14 invaria
         "defined and operand-taking unless CPython has the same gap, jrel/jabs disjoint, EXTENDED_ARG and shift, and for the nine installed "
         "interpreters equality of names, HAVE_ARGUMENT/hasarg and the seven category sets with the live opcode module); (c) the recorded "
         "derivation of every table (init/def/rm/finalize events, hook H2) replayed on an abstract table by OpTablesTrace.tla; (d) every code "
-        "object of the corpus judged under xdis's table for its version: tiling, jump-target alignment and operand index ranges hold only "
+        "object of the corpus judged under xdis's table for its version: tiling, jump-target alignment, operand index ranges and only-defined-opcodes-occur hold only "
         "under the right table. non-trivial = defined opcodes; distinct by (table, opcode)")
 
 
@@ -110,7 +110,7 @@ def run(tier, rep):
     recs = bcrun.record_xdis(d, files, lib.MAIN_HOST, "portable", "wf", nproc=14)
     ok, err = bcrun.split_errors(recs)
     rej, stats = lib.judge("BytecodeTrace", "BytecodeTrace", ok, name="c09-wf", env={"TABLES_FILE": tables}, timeout=3000)
-    mine = [v for v in rej if v["clause"] in ("C02.tiling", "C02.offset", "C04.aligned", "C09.index_range")]
+    mine = [v for v in rej if v["clause"] in ("C02.tiling", "C02.offset", "C04.aligned", "C09.index_range", "C09.undefined_opcode")]
     rep.judged(stats, "well-formedness of corpus code under xdis's tables", len(ok) - len(set(v["index"] for v in mine)))
     rep.evaluations += len(ok)
     seen = {}
